@@ -351,7 +351,7 @@ def replay_trace(jobname, trace):
         table = {s['name']: s for t in ('quick', 'thorough') for s in c15_cluster.specs(t)}
         return _jobs.replay_cluster(table[jobname], trace)
     kind, name, depth = jobname.split(':')
-    m = BatteryModel(name, 99) if kind == 'direct' else ReplicatedBatteryModel(name, 99)
+    m = BatteryModel(name, 99) if kind == 'direct' else ReplicatedBatteryModel(name, 99, 1 if kind.endswith('-v1') else 0)
     ops = m.spec['ops']
     evs = []
     for t in trace:
@@ -377,6 +377,7 @@ def main(tier, seed, job_filter=None):
             for n in spec_table()]
     rdepth = 3 if tier == 'quick' else 4
     jobs += [(job_replicated, dict(name=n, depth=rdepth)) for n in spec_table() if '(1)' not in n]
+    jobs += [(job_replicated, dict(name='ReplList', depth=rdepth - 1, version=1))]     # ReplList.__setitem__ needs version 1
     if job_filter:
         jobs = [j for j in jobs if job_filter in j[1]['name']]
     rep.replay_fn = replay_trace
@@ -409,10 +410,11 @@ class ReplicatedBatteryModel(object):
     battery contents are compared with the builtin. Catches argument encoding / decoding
     problems that the direct `_doApply` path cannot see."""
 
-    def __init__(self, name, depth):
+    def __init__(self, name, depth, version=0):
         self.name = name
         self.spec = spec_table()[name]
         self.depth = depth
+        self.version = version      # code version enabled (through setCodeVersion) before the operations
         self._cache = None
 
     def build(self, hist):
@@ -433,6 +435,19 @@ class ReplicatedBatteryModel(object):
         so._onTick(0.0)
         msg = None
         results = []
+        if self.version:
+            # a battery method introduced with a code version is usable once the cluster enabled that version
+            got = []
+            try:
+                so.setCodeVersion(self.version, callback=lambda res, err: got.append((res, err)))
+                for _ in range(3):
+                    seams.CLOCK[0] += 0.02
+                    so._onTick(0.0)
+            except Exception as e:
+                got = [('raised', '%s: %s' % (type(e).__name__, e))]
+            if len(got) != 1 or got[0][1] != 0:
+                msg = 'a host of %s cannot enable code version %d, which a method of the battery needs: %r' % (self.name, self.version, got)
+                hist = ()
         for ev in hist:
             name, args, kwargs = self.spec['ops'][ev]
             a1, a2 = copy.deepcopy(args), copy.deepcopy(args)
@@ -479,7 +494,7 @@ class ReplicatedBatteryModel(object):
             return []
         b = self.build(hist)[0]
         # methods introduced with a code version > 0 cannot be called before that version is enabled
-        return [i for i, (name, a, k) in enumerate(self.spec['ops']) if getattr(getattr(b, name), 'ver', 0) == 0]
+        return [i for i, (name, a, k) in enumerate(self.spec['ops']) if getattr(getattr(b, name), 'ver', 0) <= self.version]
 
     def key(self, hist):
         b, r, msg = self.build(hist)
@@ -503,9 +518,9 @@ class ReplicatedBatteryModel(object):
         return None
 
 
-def job_replicated(name, depth):
-    m = ReplicatedBatteryModel(name, depth)
-    res = core.bfs(m, name='replicated1:%s:depth%d' % (name, depth), known=core.KnownFindings(), prop='C15')
+def job_replicated(name, depth, version=0):
+    m = ReplicatedBatteryModel(name, depth, version)
+    res = core.bfs(m, name='replicated1%s:%s:depth%d' % ('-v%d' % version if version else '', name, depth), known=core.KnownFindings(), prop='C15')
     res.samples = [[m.spec['ops'][e] for e in s] for s in res.samples]
     for v in res.violations:
         v['trace'] = [m.spec['ops'][e] for e in v['trace']]
